@@ -10,7 +10,6 @@ package main
 
 import (
 	"bufio"
-	"bytes"
 	"encoding/json"
 	"flag"
 	"fmt"
@@ -85,7 +84,9 @@ type run struct {
 	cbDepth int
 	pctChange []int
 	epoch  int
+	spawns int // goroutines that have been started but have not registered yet (the system is not settled)
 	inJS   bool
+	aborted bool
 	errors []string
 }
 
@@ -102,6 +103,13 @@ func curGoid() int64 {
 	}
 	id, _ := strconv.ParseInt(string(m[1]), 10, 64)
 	return id
+}
+
+// jobIDL is jobID for callers that do not hold r.mu
+func (r *run) jobIDL(obj interface{}) string {
+	r.mu.Lock()
+	defer r.mu.Unlock()
+	return r.jobID(obj)
 }
 
 func (r *run) jobID(obj interface{}) string {
@@ -153,6 +161,9 @@ func (r *run) register(role string) *gstate {
 	id := curGoid()
 	r.mu.Lock()
 	defer r.mu.Unlock()
+	if role == "F" && r.spawns > 0 {
+		r.spawns--
+	}
 	r.epoch++
 	g := &gstate{goid: id, role: role, ch: make(chan struct{}, 1), prio: len(r.gs), born: r.epoch}
 	r.gs[id] = g
@@ -178,6 +189,9 @@ func hook(loop *eventloop.EventLoop, point string, obj interface{}) {
 		case point == "run.enter":
 			r.nLoopG++
 			role = fmt.Sprintf("L%d", r.nLoopG)
+			if r.spawns > 0 {
+				r.spawns--
+			}
 		default:
 			role = fmt.Sprintf("U%d", id)
 		}
@@ -227,6 +241,8 @@ func isBlockedStatus(s string) bool {
 }
 
 var stackBuf = make([]byte, 1<<20)
+
+const maxSteps = 1500
 
 // settle waits until every managed goroutine is parked, finished or blocked in a primitive.
 // It returns the parked goroutines.
@@ -362,17 +378,19 @@ func (r *run) callGlobal(vm *goja.Runtime, name string, args ...goja.Value) goja
 func (r *run) doAction(vm *goja.Runtime, a action) {
 	switch a.K {
 	case "st":
+		r.api("willset", "timeout")
 		h := r.callGlobal(vm, "setTimeout", r.jsFunc(vm, a.A, "timeout"), vm.ToValue(a.D))
 		r.jsH[a.H] = h
-		r.api("set", "timeout", r.jobID(exportOf(h)), fmt.Sprint(a.D), fmt.Sprint(a.A))
+		r.api("set", "timeout", r.jobIDL(exportOf(h)), fmt.Sprint(a.D), fmt.Sprint(a.A))
 	case "si":
+		r.api("willset", "interval")
 		h := r.callGlobal(vm, "setInterval", r.jsFunc(vm, a.A, "interval"), vm.ToValue(a.D))
 		r.jsH[a.H] = h
-		r.api("set", "interval", r.jobID(exportOf(h)), fmt.Sprint(a.D), fmt.Sprint(a.A))
+		r.api("set", "interval", r.jobIDL(exportOf(h)), fmt.Sprint(a.D), fmt.Sprint(a.A))
 	case "im":
 		h := r.callGlobal(vm, "setImmediate", r.jsFunc(vm, a.A, "immediate"))
 		r.jsH[a.H] = h
-		r.api("set", "immediate", r.jobID(exportOf(h)), "0", fmt.Sprint(a.A))
+		r.api("set", "immediate", r.jobIDL(exportOf(h)), "0", fmt.Sprint(a.A))
 	case "ct", "ci", "cim":
 		name := map[string]string{"ct": "clearTimeout", "ci": "clearInterval", "cim": "clearImmediate"}[a.K]
 		h := r.jsH[a.A]
@@ -380,7 +398,7 @@ func (r *run) doAction(vm *goja.Runtime, a action) {
 			h = goja.Undefined()
 		}
 		r.callGlobal(vm, name, h)
-		r.api("clear", a.K, r.jobID(exportOf(h)))
+		r.api("clear", a.K, r.jobIDL(exportOf(h)))
 	case "rol":
 		fn := r.newFn()
 		r.api("call", "rol", fn)
@@ -417,6 +435,9 @@ func (r *run) submitter(k int, steps []step) {
 	r.register(fmt.Sprintf("S%d", k))
 	r.yield("thread.start")
 	for _, s := range steps {
+		if r.isAborted() {
+			return
+		}
 		switch s.K {
 		case "rol":
 			fn := r.newFn()
@@ -471,6 +492,26 @@ func (r *run) submitter(k int, steps []step) {
 	}
 }
 
+// waitSpawn spins (the caller stays "running" for the scheduler) until every started goroutine has registered
+func (r *run) waitSpawn() {
+	for i := 0; i < 2000000; i++ {
+		r.mu.Lock()
+		n := r.spawns
+		ab := r.aborted
+		r.mu.Unlock()
+		if n == 0 || ab {
+			return
+		}
+		runtime.Gosched()
+	}
+}
+
+func (r *run) isAborted() bool {
+	r.mu.Lock()
+	defer r.mu.Unlock()
+	return r.aborted
+}
+
 func (r *run) jobIDOrNil(t *eventloop.Timer) string {
 	if t == nil {
 		return "-"
@@ -500,17 +541,27 @@ func (r *run) controller(steps []step) {
 		}
 	}
 	for _, s := range steps {
+		if r.isAborted() {
+			return
+		}
 		switch s.K {
 		case "start":
 			waitFg()
 			r.api("call", "start")
+			r.mu.Lock()
+			r.spawns++ // Start() spawns the loop goroutine
+			r.mu.Unlock()
 			r.loop.Start()
+			r.waitSpawn() // the loop goroutine has reached run.enter (the controller counts as running until then)
 			r.api("ret", "start")
 		case "startfg", "run":
 			waitFg()
 			kind, cb := s.K, s.A
 			r.started = make(chan struct{}, 1)
 			fgActive = true
+			r.mu.Lock()
+			r.spawns++
+			r.mu.Unlock()
 			go func() {
 				r.register("F")
 				r.api("call", kind)
@@ -524,6 +575,7 @@ func (r *run) controller(steps []step) {
 				r.api("ret", kind)
 				fgDone <- struct{}{}
 			}()
+			r.waitSpawn()
 			<-r.started // the start call has passed setRunning (legal order: Stop only after that)
 		case "stop":
 			r.api("call", "stop")
@@ -574,7 +626,7 @@ func execScenario(sc scenario) (line string) {
 		time.Sleep(10 * time.Microsecond)
 	}
 	idleRounds := 0
-	for r.steps < 4000 {
+	for r.steps < maxSteps {
 		parked, _ := r.settle()
 		select {
 		case <-done:
@@ -620,19 +672,29 @@ finished:
 		r.events = append(r.events, "STUCK,"+strings.Join(where, "|"))
 		r.mu.Unlock()
 	}
-	if r.steps >= 4000 {
+	if r.steps >= maxSteps {
 		r.events = append(r.events, "STEPLIMIT")
 	}
-	// goroutine leak snapshot: any goroutine still inside the eventloop package for this loop
-	time.Sleep(200 * time.Microsecond)
-	n := runtime.Stack(stackBuf, true)
+	// goroutine leak snapshot: goroutines created by this loop (timer, interval and loop goroutines) that are still
+	// alive after the controller's final Terminate() returned and everything schedulable has run
+	aborted := r.stuck || r.steps >= maxSteps
 	leaks := 0
-	for _, blk := range bytes.Split(stackBuf[:n], []byte("\n\n")) {
-		if bytes.Contains(blk, []byte("goja_nodejs/eventloop.")) && !bytes.Contains(blk, []byte("main.hook")) {
-			leaks++
-		} else if bytes.Contains(blk, []byte("goja_nodejs/eventloop.")) {
-			leaks++
+	if !aborted {
+		time.Sleep(300 * time.Microsecond)
+		n := runtime.Stack(stackBuf, true)
+		alive := map[int64]bool{}
+		for _, m := range statusRe.FindAllSubmatch(stackBuf[:n], -1) {
+			id, _ := strconv.ParseInt(string(m[1]), 10, 64)
+			alive[id] = true
 		}
+		r.mu.Lock()
+		for id, g := range r.gs {
+			if alive[id] && (g.role[0] == 'T' || g.role[0] == 'I' || g.role[0] == 'L' || g.role[0] == 'F') {
+				leaks++
+				r.events = append(r.events, "LEAK,"+g.role+","+g.point)
+			}
+		}
+		r.mu.Unlock()
 	}
 	r.events = append(r.events, fmt.Sprintf("END,leaks=%d,%s", leaks, r.snapshot()))
 	for _, e := range r.errors {
@@ -641,6 +703,7 @@ finished:
 	cur = nil
 	// release anything still parked so that goroutines of this scenario can end
 	r.mu.Lock()
+	r.aborted = true
 	for _, g := range r.gs {
 		if g.parked {
 			g.parked = false
@@ -651,7 +714,19 @@ finished:
 		}
 	}
 	r.mu.Unlock()
-	return "EL " + strings.Join(r.events, " ")
+	if aborted {
+		// get rid of what the aborted scenario left running (hooks are off now, so this runs freely)
+		old := r.loop
+		go func() {
+			defer func() { recover() }()
+			time.Sleep(2 * time.Millisecond)
+			old.StopNoWait() // thread-safe; whatever is blocked stays blocked (no CPU)
+		}()
+	}
+	r.mu.Lock()
+	evs := append([]string(nil), r.events...)
+	r.mu.Unlock()
+	return "EL " + strings.Join(evs, " ")
 }
 
 // ------------------------------------------------------------------------------------------ generator
@@ -667,18 +742,19 @@ func (g *gen) actions(ncb int, depth int) []action {
 	var out []action
 	for i := 0; i < n; i++ {
 		switch x := r.Intn(100); {
+		// handle slots: 0-1 timeouts, 2-3 intervals, 4-5 immediates (a clear mostly hits a handle of its own kind)
 		case x < 25:
-			out = append(out, action{K: "st", A: r.Intn(ncb), D: r.Intn(4), H: r.Intn(4)})
+			out = append(out, action{K: "st", A: r.Intn(ncb), D: r.Intn(4), H: r.Intn(2)})
 		case x < 35:
-			out = append(out, action{K: "si", A: r.Intn(ncb), D: r.Intn(3), H: r.Intn(4)})
+			out = append(out, action{K: "si", A: r.Intn(ncb), D: r.Intn(3), H: 2 + r.Intn(2)})
 		case x < 55:
-			out = append(out, action{K: "im", A: r.Intn(ncb), H: r.Intn(4)})
+			out = append(out, action{K: "im", A: r.Intn(ncb), H: 4 + r.Intn(2)})
 		case x < 67:
-			out = append(out, action{K: "ct", A: r.Intn(4)})
+			out = append(out, action{K: "ct", A: g.slot(0)})
 		case x < 79:
-			out = append(out, action{K: "ci", A: r.Intn(4)})
+			out = append(out, action{K: "ci", A: g.slot(2)})
 		case x < 85:
-			out = append(out, action{K: "cim", A: r.Intn(4)})
+			out = append(out, action{K: "cim", A: g.slot(4)})
 		case x < 92:
 			out = append(out, action{K: "rol", A: r.Intn(ncb)})
 		case x < 95:
@@ -689,6 +765,14 @@ func (g *gen) actions(ncb int, depth int) []action {
 		}
 	}
 	return out
+}
+
+// slot picks a handle slot of the given kind, sometimes a foreign or empty one
+func (g *gen) slot(base int) int {
+	if g.r.Chance(12) {
+		return g.r.Intn(7)
+	}
+	return base + g.r.Intn(2)
 }
 
 func (g *gen) scenario(seed uint64) scenario {
